@@ -34,6 +34,10 @@ BUILT = {
          "TLC checks that in the design every damaged, unexpected or forged message leads to Fail or a harmless continuation with all state in range; bound to the code by replacing, in real transfers, the payload of one message at a time (every message of both directions; NUM/SIZE/SUCC integers and len/step pairs, DATA headers and payloads, NAME/target/HASH/ACT/CFG JSON documents field by field, digests, EXIT text, forged FAIL, unknown types) with negative, zero, off-by-one, 2^31, 2^62, 2^63-1, non-numeric, empty, oversized, wrong-type, missing-field, truncated JSON/base64/zlib values, for both roles, base64/binary, prefix-hash and archive modes, with a progress display attached; each shard runs in a child process with RLIMIT_AS 6 GiB and a child that dies is attributed to the case it had marked.",
          "Single mutation per run; the honest peer continues normally after the mutated message; terminal-output scanners are covered by C05/C06/C19; 'session usable afterwards' is covered by C05's histories; results ok/fail are not judged (a renaming peer is indistinguishable from another honest transfer).",
          "2/C12", "transfer"),
+ "C13": ("TLA+ spec Relay.tla (one action per shared-memory operation of wrapInput / wrapOutput / handshake) checked exhaustively by TLC incl. liveness and two mutant designs; recorded executions of a real TrzszRelay with seeded delays at the vhook points validated against RelayTrace.tla",
+         "Exhaustive TLC model check of all interleavings of the relay's input reader, output reader and handshake worker around standby -> handshaking -> transferring -> standby for chunk arrival patterns before / inside / straddling / after the ACT and CFG lines, confirm and refuse: nothing duplicated, reordered, lost or delivered to the wrong side, chunks parked only while handshaking, everything eventually delivered; the designs without the re-check under the lock and with the status stored before the flush violate it (non-vacuity).  Bound to the code by driving a real relay with unique payload bytes around real trigger/ACT/CFG/EXIT lines under seeded random delays at 16 hook points and validating every feed/hook/deliver event against the same actions with every invariant evaluated at every step.",
+         "Trusts TLC, the vhook points (add-only, build tag verif) and the harness tokeniser; schedules are perturbed randomly, not enumerated, on the real code; exhaustive only on the model (4-5 chunks per side); malformed ACT/CFG outcomes and the tunnel relay path are not in the model yet.",
+         "2/C13", "relay"),
 }
 checks = []
 for p in props:
